@@ -155,6 +155,12 @@ def run(ctx):
                 and st.value.elts and all(isinstance(e, ast.Name) and e.id in classes for e in st.value.elts):
             tgt = st.targets[0] if isinstance(st, ast.Assign) else st.target
             class_tables[norm(tgt)] = [e.id for e in st.value.elts]
+        # ... or a dictionary whose values are group classes, used as TABLE[key](atom)
+        if isinstance(st, (ast.Assign, ast.AnnAssign)) and isinstance(st.value, ast.Dict) \
+                and st.value.values and all(isinstance(e, ast.Name) and e.id in classes
+                                            for e in st.value.values):
+            tgt = st.targets[0] if isinstance(st, ast.Assign) else st.target
+            class_tables[norm(tgt)] = [e.id for e in st.value.values]
     table_sites = []
     for m2, q2, f2 in prog.all_funcs():
         for call in calls_in(f2, nested=False):
